@@ -91,7 +91,7 @@ theorem C10_no_overcharge (rule : Rule) (ops : BatOps α B) (law : BatLaw ops) (
 
 /-- **Order.** The allocation pass visits the vehicles in ascending id order whatever the
 insertion order of the vehicle dict. -/
-theorem C10_order (w1 w2 : World α B) (hperm : (w1.vehicles.map (·.id)).Perm (w2.vehicles.map (·.id))) :
+theorem C10_order (w1 w2 : SWorld α B) (hperm : (w1.vehicles.map (·.id)).Perm (w2.vehicles.map (·.id))) :
     sortedVehicleIds w1 = sortedVehicleIds w2 := by
   unfold sortedVehicleIds
   apply List.Perm.eq_of_pairwise (le := fun a b => decide (a ≤ b) = true)
@@ -109,8 +109,8 @@ theorem C10_order (w1 w2 : World α B) (hperm : (w1.vehicles.map (·.id)).Perm (
 the price is at/below the threshold or the connector has surplus (negative load); otherwise the
 battery only discharges, never below zero grid draw. -/
 theorem C10_battery_policy (ops : BatOps α B) (law : BatLaw ops) (env : StratEnv α)
-    (cheap : List (String × Bool)) (w w' : World α B) (b : StatBatS α B) (gc : GcS α)
-    (isCheap : Bool) (hgc : w.gc? b.parent = some gc) (hch : alGet cheap b.parent = some isCheap)
+    (cheap : List (String × Bool)) (w w' : SWorld α B) (b : StatBatS α B) (gc : GcS α)
+    (isCheap : Bool) (hgc : w.gc? b.parent = some gc) (hch : sdGet cheap b.parent = some isCheap)
     (h : updateBattery ops env cheap w b = .ok w') :
     ∃ bat' d, w' = (w.setBattery { b with bat := bat' }).setGc (gc.addLoad b.id d).1 ∧
       ((isCheap = true ∨ gc.currentLoad < 0) → 0 ≤ d) ∧
